@@ -59,7 +59,9 @@ def run(v, prop, tier, seed, exhaustive=None):
     vlib.build_harness()
     # (A) exhaustive model checking, side by side with generation and replay
     results, threads = {}, []
-    threads.append(_tlc_bg(results, "mc", "System2", "System2.mc.cfg", workers=8 if quick else 6, timeout=1500, heap="6g"))
+    # (the model does not depend on the property: on the quick tier only C10's run pays for it)
+    if not quick or prop == "C10" or exhaustive:
+        threads.append(_tlc_bg(results, "mc", "System2", "System2.mc.cfg", workers=8 if quick else 6, timeout=1500, heap="6g"))
     if big:
         threads.append(_tlc_bg(results, "mc-1branch-4commits", "System2", "System2.mc1.cfg", workers=6, timeout=3000, heap="12g"))
         threads.append(_tlc_bg(results, "mc-2branches-3commits", "System2", "System2.mc2.cfg", workers=6, timeout=3000, heap="12g"))
@@ -68,7 +70,8 @@ def run(v, prop, tier, seed, exhaustive=None):
     scen = os.path.join(vlib.sub("scn"), "system2.ndjson")
     workers = 2 if quick else 6
     res = vlib.run_tlc("System2", "System2.sim.cfg", workers=workers, scn_out=scen, simulate=n // workers, depth=18,
-                       seed=seed, timeout=1500, heap="2g")     # num = behaviours per worker
+                       seed=seed * 100 + int(prop[1:]), timeout=1500, heap="2g")     # num = behaviours per worker; every property's
+    # check draws its own behaviours (they all judge every step; each absorbs what it owns)
     if res.violated or res.scn == 0:
         raise vlib.Inconclusive("System2 simulation failed:\n" + res.output_tail)
     with open(scen) as f:
